@@ -1,4 +1,5 @@
 import Sm9.Proofs.RepIndep
+import Sm9.Proofs.SpecGroup
 import Sm9.Proofs.Consts
 /-!
 # C09 — Only points of the curve and of the order-r subgroup pass validated construction
@@ -95,5 +96,23 @@ theorem off_subgroup_rejected :
       | .error GroupError.NotInSubgroup => true
       | _ => false) = some true := by
   decide +kernel
+
+/-! ## against the independent implementation
+
+The oracle's membership test is "on the twist (`Spec.onCurve2`) and `[r]P = O` by its own double-and-add over its own affine law".
+Both halves are the conditions of `affine_g2_new_iff` (Proofs/SpecGroup.lean), and `Spec.r`, `Spec.q` are the crate's constants. -/
+theorem independent_parameters : Spec.r = r ∧ Spec.q = q := by decide +kernel
+open SpecCurve SpecGroup in
+theorem independent_subgroup_test (A : (Jac.Wb b2).Point) :
+    Spec.ptMul Spec.opsQ2 Spec.r (encPt A) = none ↔ r • A = 0 := by
+  rw [independent_parameters.1, ptMul_eq]
+  constructor
+  · intro h; exact encPt_injective (h.trans encPt_zero.symm)
+  · intro h; rw [h]; rfl
+open SpecField SpecGroup in
+theorem independent_curve_tests (x1 y1 : Fq) (x2 y2 : Fq2) :
+    Spec.onCurve1 x1.val y1.val = decide (y1 * y1 = x1 * x1 * x1 + b1) ∧
+    Spec.onCurve2 (toQ2 x2) (toQ2 y2) = decide (y2 * y2 = x2 * x2 * x2 + b2) :=
+  ⟨onCurve1_eq x1 y1, onCurve2_eq x2 y2⟩
 
 end Sm9.C09
